@@ -72,20 +72,29 @@ impl ShardRouter {
     /// Rejects updates with a lower generation than the cached entry to
     /// prevent stale metadata from overwriting fresher data.
     pub fn update_routing(&self, shard: ShardMetadata) {
+        use dashmap::mapref::entry::Entry;
+
         let shard_id = shard.shard_id.clone();
-        // Only update if the new generation is >= the cached generation
-        if let Some(existing) = self.cache.get(&shard_id) {
-            if shard.generation < existing.shard.generation {
-                return; // Reject stale update
+        // Only update if the new generation is >= the cached generation; compare
+        // and replace under the entry's lock so a concurrent fresher update cannot
+        // be overwritten by a stale one.
+        match self.cache.entry(shard_id) {
+            Entry::Occupied(mut existing) => {
+                if shard.generation < existing.get().shard.generation {
+                    return; // Reject stale update
+                }
+                existing.insert(RoutingEntry {
+                    shard,
+                    cached_at: Instant::now(),
+                });
+            }
+            Entry::Vacant(slot) => {
+                slot.insert(RoutingEntry {
+                    shard,
+                    cached_at: Instant::now(),
+                });
             }
         }
-        self.cache.insert(
-            shard_id,
-            RoutingEntry {
-                shard,
-                cached_at: Instant::now(),
-            },
-        );
     }
 
     /// Invalidate routing for a shard
